@@ -407,6 +407,32 @@ func f32Interesting(r *rng) float32 {
 	}
 }
 
+// defined types of every kind: Make must produce values of exactly these types, at the top level and
+// nested in structs, slices, arrays, maps and pointers
+type (
+	defStr   string
+	defInt   int16
+	defBool  bool
+	defF32   float32
+	defSlice []defStr
+	defMap   map[defStr]defInt
+	defArr   [2]defStr
+	defPtr   *defStr
+)
+
+type makeZoo struct {
+	S  defStr
+	I  defInt
+	B  defBool
+	F  defF32
+	Sl defSlice
+	M  defMap
+	A  defArr
+	P  defPtr
+	PS *defStr
+	MS map[defInt][]defStr
+}
+
 type makeStruct struct {
 	A int8
 	B []uint16
@@ -599,7 +625,31 @@ func init() {
 			re := regexp.MustCompile(expr)
 			var what string
 			var invalid bool
-			switch r.intn(5) {
+			switch r.intn(8) {
+			case 5:
+				what, invalid = nativeDraw("Make[makeZoo]", rapid.Make[makeZoo](), ws, usePRNG, seed, func(v makeZoo) string {
+					if !utf8.ValidString(string(v.S)) {
+						return "invalid UTF-8 in a defined string"
+					}
+					return ""
+				})
+			case 6:
+				switch r.intn(6) {
+				case 0:
+					what, invalid = nativeDraw("Make[defStr]", rapid.Make[defStr](), ws, usePRNG, seed, func(v defStr) string { return "" })
+				case 1:
+					what, invalid = nativeDraw("Make[defSlice]", rapid.Make[defSlice](), ws, usePRNG, seed, func(v defSlice) string { return "" })
+				case 2:
+					what, invalid = nativeDraw("Make[defMap]", rapid.Make[defMap](), ws, usePRNG, seed, func(v defMap) string { return "" })
+				case 3:
+					what, invalid = nativeDraw("Make[defArr]", rapid.Make[defArr](), ws, usePRNG, seed, func(v defArr) string { return "" })
+				case 4:
+					what, invalid = nativeDraw("Make[[]defBool]", rapid.Make[[]defBool](), ws, usePRNG, seed, func(v []defBool) string { return "" })
+				default:
+					what, invalid = nativeDraw("Make[*defInt]", rapid.Make[*defInt](), ws, usePRNG, seed, func(v *defInt) string { return "" })
+				}
+			case 7:
+				what, invalid = nativeDraw("Make[map[defStr]defF32]", rapid.Make[map[defStr]defF32](), ws, usePRNG, seed, func(v map[defStr]defF32) string { return "" })
 			case 0:
 				what, invalid = nativeDraw("StringMatching("+expr+")", rapid.StringMatching(expr), ws, usePRNG, seed, func(s string) string {
 					if !re.MatchString(s) {
@@ -954,6 +1004,14 @@ func init() {
 			fl.ShrinkTime = 0
 			run := runCheckTB(prog, fl, "c07", nil)
 			kind, valid, _ := verdictMsg(run.verdict)
+			if kind == "flaky" {
+				// the property is a deterministic function of its draws: the seed rapid re-ran was not the failing one
+				m.eval(src+fmt.Sprint(fl.Seed), true)
+				p := flagsStr(fl)
+				p["prog"] = src
+				m.violate(violation{"C07", "seed", "the failing test case did not reproduce from the seed rapid recorded for it: " + run.verdict, p})
+				continue
+			}
 			if kind != "failed" && kind != "panic" {
 				m.eval(src+fmt.Sprint(fl.Seed), false)
 				continue
@@ -1295,6 +1353,41 @@ func init() {
 				p := flagsStr(fl)
 				p["prog"], p["files"] = src, strings.Join(kinds, ",")
 				m.violate(violation{"C17", "unusable", what, p})
+			}
+			// an unusable file given explicitly (-rapid.failfile) and lying in the test's own directory, next to a
+			// usable failing file that sorts after it: the usable one must still be found and replayed first
+			if failing && r.chance(1, 2) {
+				scratch, _ := os.MkdirTemp(tmp, "c17s-")
+				fls := fl
+				fls.Nofailfile = false
+				fls.Seed = 4242
+				fls.Checks = 200
+				var first *tbRun
+				inDir(scratch, func() { first = runCheckTB(prog, fls, name, nil) })
+				made := listFailFiles(scratch, name)
+				if k, _, _ := verdictMsg(first.verdict); k == "failed" && len(made) == 1 {
+					usable, _ := os.ReadFile(made[0])
+					later := fmt.Sprintf("%s-20270101000000-1.fail", name)
+					_ = os.WriteFile(filepath.Join(ffdir, later), usable, 0o644)
+					only, _ := os.MkdirTemp(tmp, "c17o-")
+					_ = os.MkdirAll(filepath.Join(only, "testdata", "rapid", name), 0o775)
+					_ = os.WriteFile(filepath.Join(only, "testdata", "rapid", name, later), usable, 0o644)
+					fle := fl
+					fle.Failfile = filepath.Join("testdata", "rapid", name, fmt.Sprintf("%s-2026010100000%d-1.fail", name, 0))
+					var explicit, base *tbRun
+					inDir(dir, func() { explicit = runCheckTB(prog, fle, name, nil) })
+					inDir(only, func() { base = runCheckTB(prog, fl, name, nil) })
+					m.tag("explicit-unusable-next-to-usable")
+					m.eval("explicit"+src+strings.Join(kinds, ",")+fmt.Sprint(fl.Seed), true)
+					if explicit.escaped != nil || explicit.verdict != base.verdict {
+						p := flagsStr(fle)
+						p["prog"], p["files"] = src, strings.Join(kinds, ",")
+						m.violate(violation{"C17", "unusable", fmt.Sprintf("an unusable fail file (%s) given with -rapid.failfile next to a usable one: verdict %s, with the usable file alone: %s (crash: %v)",
+							kinds[0], explicit.verdict, base.verdict, explicit.escaped), p})
+					}
+					os.RemoveAll(only)
+				}
+				os.RemoveAll(scratch)
 			}
 			os.RemoveAll(dir)
 			os.RemoveAll(clean)
